@@ -161,12 +161,16 @@ class Ctx:
     def fail(self, case, what, finding=None, model_violates=None):
         self.failures.append({"case": case, "what": what, "finding": finding, "model_violates": model_violates})
 
-    def corr(self, op, cases, requests, impl_answers, compare_site=True):
-        """compare driver answers with implementation answers"""
+    def corr(self, op, cases, requests, impl_answers, compare_site=True, proj=None):
+        """compare driver answers with implementation answers; `proj` restricts successful answers to the
+        observables the property mentions"""
         from common import run_model, same_outcome
         answers = run_model(requests)
         for c, a, i in zip(cases, answers, impl_answers):
-            s = same_outcome(a, i, compare_site)
+            if proj is not None and a and i and a[0] == "ok" and i[0] == "ok":
+                s = same_outcome(["ok", proj(a[1])], ["ok", proj(i[1])], compare_site)
+            else:
+                s = same_outcome(a, i, compare_site)
             self.traces += 1
             if s is None:
                 self.unsupported += 1
